@@ -7,6 +7,7 @@ import IpcModel.Interleave.Core
 import IpcModel.RecvSetP
 import IpcModel.Ideal
 import IpcModel.Ledger.L
+import IpcModel.Timed
 /-! Line-protocol driver: one request per line on stdin, one canonical answer per line on stdout.
 Imports model files only (no Mathlib/Std), so it links as a native executable. -/
 open Frag
@@ -456,6 +457,43 @@ def cmdLedger (toks : List String) : String :=
   | none => "bad-request"
   | some (_, outs) => " ".intercalate (outs.map toString)
 
+/-! ### receive modes (C10): a single-threaded script of sends / sender drops / the three receive calls -/
+structure TimedW where
+  k : Timed.K
+  senders : Nat
+  outs : List String
+
+def sysText : Timed.Sys → String
+  | .setNB => "N" | .clearNB => "C" | .recvmsg => "R" | .poll ms => s!"P{ms}"
+
+def timedResText : Timed.Res → String
+  | .msg t => s!"msg:{t}" | .empty => "empty" | .disconnected => "disc" | .blocks => "blocks" | .waitsSender t => s!"waits:{t}"
+
+def timedRecv (trace : Bool) (w : TimedW) (m : Timed.Mode) : TimedW :=
+  -- single-threaded: poll times out exactly when nothing is queued and a sender exists
+  let b := w.k.queue.isEmpty && w.k.peerAlive
+  let (tr, r, k') := Timed.call w.k m b
+  let txt := if trace then " ".intercalate (tr.map sysText) ++ " =" ++ timedResText r else timedResText r
+  { w with k := k', outs := w.outs ++ [txt] }
+
+def timedOp (trace : Bool) (w : TimedW) : List String → Option TimedW
+  | ["send", t] => t.toNat?.bind fun t =>
+      if w.senders = 0 then none else some { w with k := { w.k with queue := w.k.queue ++ [(t, true)] } }
+  | ["clone"] => if w.senders = 0 then none else some { w with senders := w.senders + 1 }
+  | ["dropsnd"] => if w.senders = 0 then none else
+      some { w with senders := w.senders - 1, k := { w.k with peerAlive := decide (w.senders - 1 > 0) } }
+  | ["try"] => some (timedRecv trace w .nonblocking)
+  | ["tmo", us] => us.toNat?.map fun us => timedRecv trace w (.timeout us)
+  | ["recv"] => some (timedRecv trace w .blocking)
+  | _ => none
+
+def cmdTimed (toks : List String) : String :=
+  let trace := kv toks "trace" = some "1"
+  let steps := (splitBar (toks.filter fun t => !(t.startsWith "trace="))).filter (· ≠ [])
+  match steps.foldl (fun acc st => acc.bind fun w => timedOp trace w st) (some ⟨⟨[], true, false⟩, 1, []⟩) with
+  | none => "bad-request"
+  | some w => " ; ".intercalate w.outs
+
 /-- all fault patterns (ENOBUFS or not) of length k, as numbers 0 .. 2^k-1 -/
 def patOf (k m : Nat) : List Fault := (List.range k).map fun i => if (m >>> i) % 2 = 1 then .enobufs else .none
 
@@ -489,6 +527,7 @@ def answer (line : String) : String :=
   | "set" :: rest => cmdSet rest
   | "ideal" :: rest => cmdIdeal rest
   | "ledger" :: rest => cmdLedger rest
+  | "timed" :: rest => cmdTimed rest
   | "noop" :: _ => "ok"
   | "enc" :: rest => cmdEnc rest
   | "rt" :: rest => cmdRt rest
